@@ -25,6 +25,8 @@ func init() {
 	plans["C05"] = &Plan{
 		Items: []Item{{Plugin: "privileges"}, {Func: "hotline.(*ClientConn).Authorize"}, {Func: "hotline.(*AccessBitmap).IsSet"},
 			// the kind (file / folder) that selects the privilege is the kind of the addressed item
+			{Plugin: "sites", Func: "hotline.(*FilePath).IsDropbox", Kinds: []string{"site", "post"}},
+			{Plugin: "sites", Func: "hotline.(*FilePath).IsUploadDir", Kinds: []string{"site", "post"}},
 			{Plugin: "handler-contract", Func: "mobius.HandleTranAgreed", Kinds: []string{"site"}},
 			{Plugin: "handler-contract", Func: "mobius.HandleSetClientUserInfo", Kinds: []string{"site"}},
 			{Plugin: "handler-contract", Func: "mobius.HandleMoveFile", Kinds: []string{"site"}},
@@ -178,7 +180,7 @@ func init() {
 			{Plugin: "handler-contract", Func: "mobius.HandleDisconnectUser", Kinds: []string{"site"}},
 			{Plugin: "handler-contract", Func: "mobius.HandleUpdateUser", Kinds: []string{"site"}},
 			{Plugin: "handler-contract", Func: "mobius.HandleDeleteUser", Kinds: []string{"site"}},
-		}, fnItems([]string{"guarded", "nopanic"},
+		}, fnItems([]string{"guarded", "nopanic", "post"},
 			"hotline.(*Server).rateLimiterFor", "hotline.(*User).Read",
 			"hotline.(*MemChatManager).New", "hotline.(*MemChatManager).Join", "hotline.(*MemChatManager).Leave", "hotline.(*MemChatManager).Members",
 			"hotline.(*MemChatManager).GetSubject", "hotline.(*MemChatManager).SetSubject",
@@ -222,6 +224,7 @@ func init() {
 			{Plugin: "sites", Func: "mobius.(*ThreadedNewsYAML).CreateGrouping", Kinds: []string{"site", "post"}},
 			{Plugin: "yamltags", Opts: "hotline.ThreadedNews hotline.NewsCategoryListData15 hotline.NewsArtData"},
 			{Func: "hotline.(*Field).DecodeNewsPath"},
+			{Plugin: "sites", Func: "mobius.(*ThreadedNewsYAML).Load", Kinds: []string{"site"}},
 			{Plugin: "handler-contract", Func: "mobius.HandlePostNewsArt", Kinds: []string{"site"}},
 			{Plugin: "handler-contract", Func: "mobius.HandleDelNewsArt", Kinds: []string{"site"}},
 			{Plugin: "handler-contract", Func: "mobius.HandleGetNewsArtData", Kinds: []string{"site"}},
@@ -452,6 +455,7 @@ func init() {
 			{Func: "hotline.NewAccount"},
 			// an edit stores (in the table and, marshalled, on disk) exactly the bitmap it was given
 			{Func: "mobius.(*YAMLAccountManager).Update"}, {Func: "mobius.(*YAMLAccountManager).Create"},
+			{Plugin: "sites", Func: "mobius.(*YAMLAccountManager).List", Kinds: []string{"inv-init", "guarded"}},
 			{Plugin: "handler-contract", Func: "mobius.HandleSetUser", Kinds: []string{"site"}},
 			{Plugin: "handler-contract", Func: "mobius.HandleUpdateUser", Kinds: []string{"site"}}},
 		Decided: []string{
